@@ -1,4 +1,5 @@
 import RadicaleModel.Filter
+import RadicaleProofs.Prefilter
 import RadicaleProofs.FreeBusy
 /-
   C16 — calendar queries return exactly the matching objects.
@@ -340,5 +341,26 @@ theorem freebusy_transparent (max : Nat) (fs fe : Int) (ovr main : List Range) :
     report on a calendar that has an opaque event -/
 theorem freebusy_limit_zero_refuses (fs fe : Int) (ovr main : List Range) : fbEvent true 0 fs fe ovr main = none := by
   simp [fbEvent]
+
+/-! ### the structure of the filter: `simplify_prefilters` (model RadicaleModel/Prefilter.lean) -/
+
+/-- **"simple" means the simplified condition is the filter.**  When `simplify_prefilters` reports the filter as simple,
+    then for every calendar object all filter elements hold (`comp_match`) exactly if its component type is the returned
+    one and its time-range test holds for the returned range.  Hence an object that the storage pre-selection reports as
+    fully matched does match the filter itself, for every shape of filter (several filter elements, sibling
+    comp-filters, prop-filters before or after the time-range, is-not-defined, unsupported components, unknown
+    elements — none of them is "simple"). -/
+theorem simple_means_equivalent (it : Radicale.Prefilter.ItemView) (tmin tmax : Int) (flat : List Radicale.Prefilter.Flt)
+    (hname : it.name = "VCALENDAR") (hcomp : it.component ≠ "") (hfull : it.tr tmin tmax = true)
+    (hs : (Radicale.Prefilter.simplify "VCALENDAR" tmin tmax flat).simple = true) :
+    Radicale.Prefilter.allMatch it flat =
+      some (Radicale.Prefilter.simplifiedMatch it (Radicale.Prefilter.simplify "VCALENDAR" tmin tmax flat)) :=
+  Radicale.Prefilter.simple_sound it tmin tmax flat hname hcomp hfull hs
+
+-- two sibling comp-filters below VCALENDAR are not simple (seed C16e removed exactly this test)
+example : (Radicale.Prefilter.simplify "VCALENDAR" 0 100
+    [.comp "VCALENDAR" [.comp "VEVENT" [], .comp "VEVENT" [.timeRange 10 20]]]).simple = false := by decide
+example : Radicale.Prefilter.simplify "VCALENDAR" 0 100 [.comp "VCALENDAR" [.comp "VEVENT" [.timeRange 10 20]]]
+    = ⟨some "VEVENT", 10, 20, true⟩ := by decide
 
 end C16
